@@ -23,8 +23,12 @@ func (s *statMem) GetStatistics(a uint16) uint64 {
 		panic("watchdog")
 	}
 	s.left--
-	return s.Memory.GetStatistics(a)
+	return s.Memory.GetStatistics(a) + statBias[a]
 }
+
+// statBias: added to the access statistic of an address (an access profile is any assignment of 64-bit counts to
+// addresses: numbers no real run reaches in a lifetime are access numbers too)
+var statBias = map[uint16]uint64{}
 
 func (s *statMem) Load(a uint16) uint8 {
 	if s.left <= 0 {
@@ -95,7 +99,7 @@ func reportCase(r *rng.R, strategy string, prcnt int, start uint16, raws []int, 
 	rs := make([]string, n)
 	vs := make([]byte, n)
 	for i := range raws {
-		rs[i] = fmt.Sprintf("%d", raws[i])
+		rs[i] = fmt.Sprintf("%d", uint64(raws[i])+statBias[start+uint16(i)])
 		vs[i] = vals[i]
 		if raws[i] == 0 {
 			vs[i] = 0
@@ -188,10 +192,34 @@ func reportStream(seed uint64, n int) {
 				}
 			}
 		}
+		if r.Chance(30) {
+			// symbols OUTSIDE the program range (a zero-page variable, a routine behind the program): not part of the report
+			if start >= 0x20 {
+				labels[start-uint16(1+r.Intn(0x1F))] = []string{"below"}
+				zp := uint16(r.Intn(int(start)))
+				labels[zp] = append(labels[zp], "zp_var")
+			}
+			if int(start)+ln+8 < 0x10000 {
+				labels[start+uint16(ln)+uint16(r.Intn(8))] = []string{"behind"}
+			}
+			count("report.outsidelabels")
+		}
 		prcnt := []int{0, 1, 10, 50, 99, 100, r.Intn(101), r.Intn(101)}[r.Intn(8)]
 		strategy := []string{"median", "abs"}[r.Intn(2)]
 		count("report." + strategy)
+		statBias = map[uint16]uint64{}
+		if r.Chance(6) {
+			// one to three addresses with access numbers around 2^63 and 2^64
+			for k := 0; k <= r.Intn(3); k++ {
+				j := r.Intn(ln)
+				if raws[j] > 0 {
+					statBias[start+uint16(j)] = []uint64{1 << 63, 1<<63 - 50, 1<<64 - 100, 1 << 62}[r.Intn(4)]
+				}
+			}
+			count("report.hugecounts")
+		}
 		emit(reportCase(r, strategy, prcnt, start, raws, vals, labels))
+		statBias = map[uint16]uint64{}
 	}
 	// float index: the expression of the Go code for every length and percentage, checked against the integer
 	// envelope the Lean theorems assume (IdxOk), and emitted on a sample for comparison with Lean's Float
